@@ -57,7 +57,10 @@ def heapscanGen (seed idx size : Nat) : Case :=
   let model := Model.readTuples file vis
   let view := (Spec.scanView bs).filter fun v => !vis || Spec.liveBits v.infomask
   let nNormal := (Spec.scanView bs).length
+  let maxLps := (bs.map fun b => match b with | .page p => p.lps.length | .zero => 0).foldl max 0
+  let hasMax := bs.any fun b => match b with | .page p => p.slots.any (fun s => s.2.len == 8164) | .zero => false
   let tags := [s!"pages={bs.length}", (if tail.isEmpty then "tail=0" else "tail=partial"),
+               (if maxLps < 40 then "lps<40" else if maxLps < 200 then "lps<200" else "lps>=200")] ++ (if hasMax then ["maxtuple"] else []) ++ [
                (if nNormal == 0 then "tuples=0" else if nNormal < 10 then "tuples<10" else "tuples>=10")] ++
               (if view.length > 0 then ["nt"] else [])
   { tags, model := showM showEntries model, spec := showViews view, args := [b2s vis, hexRle file] }
@@ -103,12 +106,14 @@ def pagedirectEval (args : List String) : String :=
 
 def pagedirectGen (seed idx size : Nat) : Case :=
   let (p, extra) := ((do
-      let p ← Gen.genPage size
+      let p ← if idx % 16 == 3 then Gen.genMaxTuplePage else if idx % 16 == 11 then Gen.genFullPointerPage else Gen.genPage size
       let extra ← if ← Gen.prob 1 4 then Gen.bytes (← Gen.range 1 40) else pure []
       pure (p, extra)) : Gen _).run' (Prng.ofSeed seed idx)
   let bytes := Spec.encPage p ++ extra
   let view := p.normalTuples.map (Spec.tupleView 0)
-  { tags := [if extra.isEmpty then "exact" else "trailing", if view.isEmpty then "empty" else "nt"],
+  { tags := [if extra.isEmpty then "exact" else "trailing", if view.isEmpty then "empty" else "nt",
+             (if p.lps.length == 0 then "lps=0" else if p.lps.length < 40 then "lps<40" else if p.lps.length < 200 then "lps<200" else "lps>=200"),
+             (if p.slots.any (fun s => s.2.len == 8164) then "maxtuple" else "nomaxtuple")],
     model := showM (fun ts => joinWith ";" (ts.map showTuple)) (Model.parsePage bytes),
     spec := showViews view, args := [hexRle bytes] }
 
@@ -120,10 +125,19 @@ def tupledirectEval (args : List String) : String :=
   | [t] => showM (fun r => match r with | some t => showTuple t | none => "nil") (Model.parseHeapTuple (unhex t))
   | _ => "bad-args"
 
+/-- histogram labels: header length class and attribute count class of a tuple -/
+def tupleClassTags (t : Spec.Tuple) : List String :=
+  let h := t.hoff
+  let n := t.natts
+  [ (if h == 23 then "hoff=23" else if h == 24 then "hoff=24" else if h % 8 != 0 then "hoff=odd" else if h < 128 then "hoff=8k<128" else "hoff=8k>=128"),
+    (if n == 0 then "natts=0" else if n ≤ 40 then "natts<=40" else if n < 255 then "natts<255" else if n ≤ 257 then "natts~256"
+     else if n < 1600 then "natts<1600" else if n == 1600 then "natts=1600" else "natts>1600") ]
+
 def tupledirectGen (seed idx size : Nat) : Case :=
-  let t := (Gen.genTuple (24 + 40 * (size + 1))).run' (Prng.ofSeed seed idx)
+  -- every fifth case has room for the bitmap of 1600 attributes (t_hoff 224) and for header lengths up to 255
+  let t := (Gen.genTuple (if idx % 5 == 0 then 320 else 24 + 40 * (size + 1))).run' (Prng.ofSeed seed idx)
   let bytes := Spec.encTuple t
-  { tags := ["nt", if t.hasNull then "bitmap" else "nobitmap", if t.data.isEmpty then "data=0" else "data>0"],
+  { tags := ["nt", if t.hasNull then "bitmap" else "nobitmap", if t.data.isEmpty then "data=0" else "data>0"] ++ tupleClassTags t,
     model := tupledirectEval [hexRle bytes], spec := showView (Spec.tupleView 0 t), args := [hexRle bytes] }
 
 def tupledirect : Family := { name := "tupledirect", gen := tupledirectGen, eval := tupledirectEval }
@@ -205,5 +219,13 @@ def heapmutGen (seed idx size : Nat) : Case :=
   { tags := [if m == "ok" then "model=ok" else "model=fault", "nt"], model := m, spec := "ok", args := [b2s vis, hexRle file] }
 
 def heapmut : Family := { name := "heapmut", gen := heapmutGen, eval := heapmutEval, fixed := craftedPages.length }
+
+/-- heapraw: the same crafted / mutated files, but comparing the scan's full output (spec silent): the model is the
+code on malformed pages too, entry by entry — what `C02_concat` / C10 (stated for arbitrary bytes) lean on -/
+def heaprawGen (seed idx size : Nat) : Case :=
+  let c := heapmutGen (seed + 1000003) idx size
+  { tags := ["nt"], model := heapscanEval c.args, spec := "-", args := c.args }
+
+def heapraw : Family := { name := "heapraw", gen := heaprawGen, eval := heapscanEval, fixed := craftedPages.length }
 
 end Driver.Fam
